@@ -173,6 +173,8 @@ func runC03(r *Report) {
 	ruleFreshScanReader(r)
 	ruleNoMergeDecode(r)
 	ruleCompressor(r)
+	rulePoolPutOnce(r)
+	ruleBloomEveryKey(r)
 }
 
 // compareOperands: for a Compare-like call, which argument position is which parameter/field?
